@@ -5,7 +5,7 @@
    2. execF: the interpreter of Proofs/C14_skel.v with a medium on which the k-th I/O call (Seek / Read /
       Write / WriteAt calls counted from 0 within one operation) fails; a failing write first stores `short`
       bytes of its argument (a short write).  writeAt is one WriteAt call when the medium is an io.WriterAt,
-      otherwise a Seek followed by a Write.
+      otherwise a Seek followed by a Write - both from the TRANSLATED body of writeAt (C14gen.writeAt), which setHead calls.
    3. What holds after a failed WriteSector, on the scenario that refutes isolation for the code BEFORE fix
       db6a924 (header write fails, a later write of another chunk reuses the freed sectors). *)
 From Coq Require Import List Arith NArith ZArith Lia Bool ZifyN ZifyNat ZifyBool FMapPositive.
@@ -137,12 +137,9 @@ Fixpoint execF (s : sem_stmt) (ret : string -> fs -> resF) (k : fs -> resF) (σc
       if (a <? 0)%Z then FStuck else
       match g_pos σ with Some p => k (write_op σc p (fzeros (Z.to_N a))) | None => FStuck end
   | SEff EPut32 _ e => k (up (fun s => set_buf s (be 4 (pat (e (look σ))))) σc)
-  | SEff EWriteAt _ e =>
+  | SEff EWriteAt _ e =>          (* _, err = r.writeAt(buf[:], e): the TRANSLATED body of writeAt *)
       let a := e (look σ) in
-      if (a <? 0)%Z then FStuck else
-      if wat then k (up (fun s => set_pos s (g_pos σ)) (write_op σc (Z.to_N a) (g_buf σ)))      (* f.WriteAt(p, off) *)
-      else let σ1 := seek_op σc (Z.to_N a) in                                                    (* Seek(off, 0); Write(p) *)
-           if g_err (fst σ1) then k σ1 else k (write_op σ1 (Z.to_N a) (g_buf σ))
+      if (a <? 0)%Z then FStuck else do_call CWriteAt [a] σc k
   | SEff EMakeData _ e => let a := e (look σ) in if (a <? 0)%Z then FStuck else k (up (fun s => set_dlen s (Z.to_N a)) σc)
   | SEff ESetOffset _ e => k (up (fun s => set_st s (st_offs (g_st s) (setN (offs (g_st s)) (slot s) (pat (e (look σ)))))) σc)
   | SEff ESetTs _ e => k (up (fun s => set_st s (st_tss (g_st s) (setN (tss (g_st s)) (slot s) (pat (e (look σ)))))) σc)
@@ -190,6 +187,13 @@ Fixpoint execF (s : sem_stmt) (ret : string -> fs -> resF) (k : fs -> resF) (σc
   | SEff0 EVarLength _ => k (up (fun s => setl s Vlength 0%Z) σc)
   | SErrCheck _ => k σc
   | SErrDo _ _ => k σc
+  | SIfWriterAt _ th => if wat then sq (fun s k => execF s ret k) th k σc else k σc
+  | SRetWriteAt t e =>            (* return f.WriteAt(p, e): one call, the position is not moved *)
+      let a := e (look σ) in
+      if (a <? 0)%Z then FStuck
+      else ret t (up (fun s => set_pos s (g_pos σ)) (write_op σc (Z.to_N a) (g_buf σ)))
+  | SRetWrite t =>                (* return r.f.Write(p) at the position Seek left *)
+      match g_pos σ with Some p => ret t (write_op σc p (g_buf σ)) | None => FStuck end
   | SRet t => ret t σc
   | SRetBool _ c => FBool (c (look σ))
   end.
@@ -198,6 +202,16 @@ Definition runF (body : list sem_stmt) (ret : string -> fs -> resF) (σ : fs) : 
   sq (fun s k => execF s ret k) body (fun _ => FStuck) σ.
 End ExecF.
 
+(* writeAt calls nothing; setHead calls writeAt; WriteSector calls findSpace and setHead *)
+Definition callW (failat : nat) (short : N) (wat : bool) (c : callee) (args : list Z) (σ : fs) (k : fs -> resF) : resF :=
+  let none := fun (_ : callee) (_ : list Z) (_ : fs) (_ : fs -> resF) => FStuck in
+  match c, args with
+  | CWriteAt, [off] =>
+      runF failat short wat none C14gen.writeAt
+           (fun _ σ' => k (up (fun s => set_vars s (g_vars (fst σ))) σ'))
+           (up (fun s => set_vars s (setv vars0 Voff off)) σ)
+  | _, _ => FStuck
+  end.
 Definition call1F (failat : nat) (short : N) (wat : bool) (c : callee) (args : list Z) (σ : fs) (k : fs -> resF) : resF :=
   let none := fun (_ : callee) (_ : list Z) (_ : fs) (_ : fs -> resF) => FStuck in
   match c, args with
@@ -206,7 +220,7 @@ Definition call1F (failat : nat) (short : N) (wat : bool) (c : callee) (args : l
            (fun _ σ' => k (up (fun s => set_vars s (setv (g_vars (fst σ)) Vn (v_n (g_vars s)))) σ'))
            (up (fun s => set_vars s (setv vars0 Vneed need)) σ)
   | CSetHead, [a; b] =>
-      runF failat short wat none C14gen.setHead
+      runF failat short wat (callW failat short wat) C14gen.setHead
            (fun _ σ' => k (up (fun s => set_vars s (g_vars (fst σ))) σ'))
            (up (fun s => set_vars s (setv (setv (setv (setv vars0 Vx (v_x (g_vars s))) Vz (v_z (g_vars s))) Voffset a) Vtimestamp b)) σ)
   | _, _ => FStuck
@@ -291,3 +305,33 @@ Lemma fail_tie_alloc_100 : Forall (tie_at sc_state0 0 0 (fill 4 4200) 8 100) (se
 Lemma fail_tie_inplace_3 : Forall (tie_at sc_state0 1 0 (fill 6 90) 8 3) (seq 0 9). Proof. tie_all. Qed.
 Lemma fail_tie_inplace_50 : Forall (tie_at sc_state0 1 0 (fill 6 90) 8 50) (seq 0 9). Proof. tie_all. Qed.
 Lemma fail_tie_fresh_5 : Forall (tie_at sc_state0 7 7 (fill 6 4093) 8 5) (seq 0 9). Proof. tie_all. Qed.
+
+(* ------------------------------------------------------------------ 5. writeAt (translated body, both paths) *)
+Lemma writeAt_io_checked : io_checked C14gen.writeAt = true.
+Proof. reflexivity. Qed.
+
+(* on a medium that does not fail during the call: ONE physical write of the buffer at off; the WriterAt path
+   makes one call and leaves the position where it was, the fallback makes two (Seek, Write) and leaves it
+   behind the bytes written *)
+Lemma writeAt_interp fa sh wat st0 vs pos lim buf dat dlen ws nw c off k :
+  Nat.eqb c fa = false -> Nat.eqb (S c) fa = false ->
+  callW fa sh wat CWriteAt [Z.of_N off] (mkist st0 vs pos lim buf dat dlen ws false nw, c) k =
+  k (mkist (st_img st0 (mkwr off buf :: img st0)) vs (if wat then pos else Some (off + flen buf)) lim buf dat dlen
+           (ws ++ [mkwr off buf]) false nw, if wat then S c else S (S c)).
+Proof.
+  intros H0 H1. destruct st0 as [o t u h f].
+  destruct vs as [vx vz vneed vn vnow vsec vnum vlength vsize vi vo vs0 vv voffset vtimestamp voldN voldNow voff].
+  unfold callW, runF, C14gen.writeAt.
+  destruct wat;
+    lazy beta iota zeta delta [sq execF up fst snd hit tick failed write_op seek_op look getv setv vars0 g_err g_st g_vars g_pos g_lim g_buf
+                               g_data g_dlen g_ws g_now set_st set_vars set_pos set_ws set_err phys st_img img offs tss used hwm
+                               v_x v_z v_need v_n v_now v_sec v_num v_length v_size v_i v_o v_s v_v v_offset v_timestamp v_oldN v_oldNow v_off];
+    unfold c14_writeAt_WriteAt_off, c14_writeAt_seek; rewrite ?H0, ?H1;
+    assert ((Z.of_N off <? 0)%Z = false) as -> by lia; rewrite ?N2Z.id; rewrite ?H0, ?H1; reflexivity.
+Qed.
+
+(* the WriterAt medium, no failure: the same physical writes and state as the model's WriteSector *)
+Lemma writeAt_fast_path_instance :
+  interp_writeF 1000 0 true sc_state0 0 0 (fill 4 4200) 8 =
+  Some (fst (write_sector sc_state0 0 0 (fill 4 4200) 8), WFOk).
+Proof. vm_compute. reflexivity. Qed.
